@@ -32,7 +32,7 @@ RULE = (
     "javac/java 17; node 22), attributed to single literals by diagnostic line numbers and "
     "bisection; C# and Go by spec-derived decoders (vlib/litdecode.py). A helper that raises is "
     "'error-reported' (acceptable). Non-trivial = the value contains a character outside [ -~] or "
-    "a quote/backslash (bytes: non-empty); distinct by (target,value,k)."
+    "a quote/backslash (bytes: non-empty). One evaluated case = one value read by one language (all helpers/modes of that language in one file); distinct by (language,value,k); per-target outcomes are in the class histogram. A failing literal is named by the smallest failing probe: the literal of each single character / adjacent pair of the value read again by the same reader (char:<class>, pair:<class>+<class>)."
 )
 ASSUMPTIONS = [
     "a literal is read in the context its callers create: Python f-string parts are wrapped as f<q>part{v0}part<q>, "
@@ -588,6 +588,14 @@ class External:
             outcomes, culprits, diag = self.run([it for _, it in indexed], d)
             shutil.rmtree(d, ignore_errors=True)
             if outcomes is not None:
+                missing = [pos for pos in range(len(indexed)) if pos not in outcomes]
+                if missing and len(indexed) > 1:
+                    # some literal broke out of its statement: isolate it
+                    _stat(f"{self.name}:bisections")
+                    mid = len(indexed) // 2
+                    self._solve(indexed[:mid], scratch, res)
+                    indexed = indexed[mid:]
+                    continue
                 for pos, (i, _) in enumerate(indexed):
                     res[i] = outcomes.get(pos, ("runtime-error", "no output for this literal"))
                 return
@@ -867,7 +875,21 @@ def _norm(msg: str) -> str:
     return "-".join(m.split())[:70]
 
 
-def _hexesc_then_digit(text: str, lang: str) -> bool:
+def label_class(ch: str) -> str:
+    """Coarse character classes used to *name* root causes."""
+    c = char_class(ch)
+    if c in ("c0-other", "del", "c1"):
+        return "control"
+    if c in ("nel-U+0085", "linesep-U+2028/9"):
+        return "unicode-newline"
+    if c in ("latin1-A0..FE", "U+00FF/0100"):
+        return "latin1-or-U+0100"
+    if c in ("bom-U+FEFF", "nonchar-U+FFFE/F"):
+        return c.split("-")[0]
+    return c
+
+
+def _hexesc_then_digit(text: str) -> bool:
     """An input feature used only to *name* the bucket of a failure."""
     for a, b in zip(text, text[1:]):
         if b in HEXD and a not in C0_SIMPLE and (ord(a) < 32 or 0x7F <= ord(a) <= 0xFF):
@@ -875,72 +897,123 @@ def _hexesc_then_digit(text: str, lang: str) -> bool:
     return False
 
 
-def cause(it: Item, outcome: Outcome) -> str:
-    """Name of the root-cause class of a failing literal (bucket suffix)."""
+def failed(it: Item, outcome: Outcome) -> bool:
+    kind, payload = outcome
+    return not (kind == "ok" and list(payload) == list(it.expect))
+
+
+def recognised(it: Item, outcome: Outcome) -> Optional[str]:
+    """Root causes that are recognised from the literal itself (defects seen on the pinned tree)."""
     lang = lang_of(it.target)
     kind, payload = outcome
     text = it.value if isinstance(it.value, str) else ""
-    lit = it.literal
-    if lang == "cpp" and "\\x" in lit and _hexesc_then_digit(text, lang):
-        if kind == "compile-error" and "out of range" not in str(payload):
-            return "does-not-compile:" + _norm(str(payload))
+    if it.kind != "s":
+        return None
+    if (
+        lang == "cpp" and "\\x" in it.literal and _hexesc_then_digit(text)
+        and (kind == "ok" or "out of range" in str(payload))
+    ):
         return "hex-escape-absorbs-following-hex-digit"
     if (
-        lang == "golang" and it.kind == "s" and "\\x" in lit
+        lang == "golang" and "needs_escaping" not in it.target and "\\x" in it.literal
         and any(ord(c) < 16 and c not in C0_SIMPLE for c in text)
         and (kind == "ok" or "two hexadecimal digits" in str(payload))
     ):
         return "hex-escape-with-one-digit"
-    if kind == "compile-error":
-        msg = str(payload)
-        if "\x00" in text and re.search(r"null|NUL", msg):
-            return "NUL-rejected-by-reader"
-        return "does-not-compile:" + _norm(msg)
-    if kind == "runtime-error":
-        return "does-not-evaluate:" + _norm(str(payload))
-    got = payload
-    exp = it.expect
-    i = 0
-    while i < len(got) and i < len(exp) and got[i] == exp[i]:
-        i += 1
-    if it.kind == "b":
-        return "wrong-bytes"
-    if it.kind == "c":
-        return "wrong-value:" + char_class(text[:1] or " ")
-    # map the unit offset back to a character of the expected text (approximately)
-    _, expected_text = _split(text, it.k)
-    units = 0
-    where = "end-of-text"
-    for ch in expected_text:
-        if lang in ("python", "cpp"):
-            w = 1
-        elif lang == "golang":
-            w = len(ch.encode("utf-8", "surrogatepass"))
-        else:
-            w = 2 if ord(ch) > 0xFFFF else 1
-        if units + w > i:
-            where = char_class(ch)
-            break
-        units += w
-    return "wrong-value-at:" + where
+    return None
 
 
-def judge(it: Item, outcome: Outcome) -> Optional[Tuple[str, str]]:
-    """None if the literal denotes the original value, else (bucket, message)."""
+def probes_of(text: str) -> List[str]:
+    """Single characters, then adjacent pairs, in order of appearance, without repetition."""
+    out = []  # type: List[str]
+    for c in text:
+        if c not in out:
+            out.append(c)
+    for a, b in zip(text, text[1:]):
+        if a + b not in out:
+            out.append(a + b)
+    return out
+
+
+Evaluate = Callable[[Sequence[Item], pathlib.Path], List[Outcome]]
+
+
+def diagnose(failures: Sequence[Tuple[Item, Outcome]], ev: Evaluate, scratch: pathlib.Path) -> List[str]:
+    """
+    Name the root-cause class of every failing literal (bucket suffix).
+
+    A failure which is not recognised from the literal is localised by reading, with the
+    same target and the same reader, the literals of every single character and of every
+    adjacent pair of characters of the value: the first one that fails on its own names
+    the cause (``char:<class>`` / ``pair:<class>+<class>``).
+    """
+    labels = [None] * len(failures)  # type: List[Optional[str]]
+    probe_items = {}  # type: Dict[Tuple[str, str], Optional[Item]]
+    for idx, (it, oc) in enumerate(failures):
+        kind, payload = oc
+        if it.kind == "b":
+            labels[idx] = ("does-not-compile:" + _norm(str(payload))) if kind != "ok" else "wrong-bytes"
+            continue
+        if it.kind == "c":
+            labels[idx] = "char:" + label_class(it.value[:1] or " ")
+            continue
+        r = recognised(it, oc)
+        if r is not None:
+            labels[idx] = r
+            continue
+        for p in probes_of(it.value):
+            key = (it.target, p)
+            if key not in probe_items:
+                its, _ = make_items("s", p, None, only=it.target, langs=[lang_of(it.target)])
+                probe_items[key] = its[0] if its else None
+    todo = [(key, pit) for key, pit in probe_items.items() if pit is not None]
+    bad = set()
+    if todo:
+        _stat("diagnosis-probes", len(todo))
+        for (key, pit), oc in zip(todo, ev([pit for _, pit in todo], scratch)):
+            if failed(pit, oc):
+                bad.add(key)
+    for idx, (it, oc) in enumerate(failures):
+        if labels[idx] is not None:
+            continue
+        label = None
+        for p in probes_of(it.value):
+            if (it.target, p) in bad:
+                if len(p) == 1:
+                    label = "char:" + label_class(p)
+                else:
+                    label = "pair:" + label_class(p[0]) + "+" + label_class(p[1])
+                break
+        if label is None:
+            label = "in-context:" + ("wrong-value" if oc[0] == "ok" else "does-not-compile")
+        labels[idx] = label
+    return [str(x) for x in labels]
+
+
+def describe(it: Item, outcome: Outcome) -> str:
     kind, payload = outcome
-    if kind == "ok" and list(payload) == list(it.expect):
-        return None
-    bucket = f"{helper_of(it.target)}:{cause(it, outcome)}"
     shown = payload if kind != "ok" else "[" + " ".join(f"{x:x}" for x in payload) + "]"
-    msg = (
+    return (
         f"target={it.target} value={it.value!r} k={it.k}\nliteral={it.literal!r}\n"
         f"expected units=[{' '.join(f'{x:x}' for x in it.expect)}]\n{kind}: {shown}"
     )
-    return bucket, msg
+
+
+def judge_all(items: Sequence[Item], ev: Evaluate, scratch: pathlib.Path) -> List[Optional[Tuple[str, str]]]:
+    """Read the literals; per item None (denotes the original value) or (bucket, message)."""
+    outcomes = ev(items, scratch)
+    verdicts = [None] * len(items)  # type: List[Optional[Tuple[str, str]]]
+    failing = [(i, it, oc) for i, (it, oc) in enumerate(zip(items, outcomes)) if failed(it, oc)]
+    if failing:
+        labels = diagnose([(it, oc) for _, it, oc in failing], ev, scratch)
+        for (i, it, oc), label in zip(failing, labels):
+            verdicts[i] = (f"{helper_of(it.target)}:{label}", describe(it, oc))
+    return verdicts
 
 
 def make_items(kind: str, value: Any, k: Optional[int], only: Optional[str] = None,
-               langs: Optional[Sequence[str]] = None) -> Tuple[List[Item], List[Tuple[str, str, str]]]:
+               langs: Optional[Sequence[str]] = None,
+               parts_only: bool = False) -> Tuple[List[Item], List[Tuple[str, str, str]]]:
     """
     Call every applicable helper. Return (items, reports) where a report is
     (target, 'error-reported' | 'not-applicable' | 'FAIL:<bucket>', message).
@@ -953,8 +1026,11 @@ def make_items(kind: str, value: Any, k: Optional[int], only: Optional[str] = No
         for name, emit in kinds.get(kind, {}).items():
             if only is not None and name != only:
                 continue
+            if parts_only and "parts" not in name:
+                continue
+            kk = k if "parts" in name else None  # only the interpolating targets use the offset
             try:
-                literal, expect, arg = emit(value, k)
+                literal, expect, arg = emit(value, kk)
             except _NotApplicable:
                 reports.append((name, "not-applicable", ""))
                 continue
@@ -967,7 +1043,7 @@ def make_items(kind: str, value: Any, k: Optional[int], only: Optional[str] = No
             if not isinstance(literal, str):
                 reports.append((name, f"FAIL:{helper_of(name)}:returns-{type(literal).__name__}", repr(literal)[:200]))
                 continue
-            items.append(Item(name, kind, value, k, literal, expect, arg))
+            items.append(Item(name, kind, value, kk, literal, expect, arg))
     return items, reports
 
 
@@ -981,11 +1057,11 @@ _SANITY = [("s", "abc", 1), ("b", bytes(range(3)), None), ("c", "x", None)]
 
 
 def shard(ctx: runner.Ctx) -> None:
-    n = ctx.n(12_000, 1_600_000)
+    n = ctx.n(12_000, 800_000)
     batch_size = 1500 if ctx.quick else 2000
     scratch = pathlib.Path(ctx.scratch)  # type: ignore
 
-    readers = {}  # type: Dict[str, Callable[[Sequence[Item], pathlib.Path], List[Outcome]]]
+    readers = {}  # type: Dict[str, Evaluate]
     for lang in LANGS:
         ev, why = reader(lang)
         if ev is None:
@@ -994,15 +1070,15 @@ def shard(ctx: runner.Ctx) -> None:
             continue
         readers[lang] = ev
     # sanity: the drivers themselves must work on harmless literals (else exit 2, never 1)
+    by_lang = {}  # type: Dict[str, List[Item]]
     for kind, value, k in _SANITY:
         items, _ = make_items(kind, value, k, langs=list(readers))
-        by_lang = {}  # type: Dict[str, List[Item]]
         for it in items:
             by_lang.setdefault(lang_of(it.target), []).append(it)
-        for lang, its in by_lang.items():
-            for it, oc in zip(its, readers[lang](its, scratch)):
-                if judge(it, oc) is not None:
-                    raise runner.HarnessError(f"driver sanity failed for {it.target}: {it.literal!r} -> {oc!r}")
+    for lang, its in by_lang.items():
+        for it, oc in zip(its, readers[lang](its, scratch)):
+            if failed(it, oc):
+                raise runner.HarnessError(f"driver sanity failed for {it.target}: {it.literal!r} -> {oc!r}")
 
     cases = []  # type: List[Tuple[str, Any, Optional[int]]]
     seen = set()
@@ -1013,6 +1089,8 @@ def shard(ctx: runner.Ctx) -> None:
         k = case[2] if kind == "s" else None
         if kind == "s" and k is not None and k > 12:
             k = None
+        if k is not None:
+            k = min(k, len(value))
         key = (kind, value, k)
         if key in seen:
             ctx.notes["duplicates"] = ctx.notes.get("duplicates", 0) + 1
@@ -1031,44 +1109,54 @@ def shard(ctx: runner.Ctx) -> None:
                     seen.add(("s", text, k))
                     cases.append(("s", text, k))
 
+    first_seen = set()  # values already read by the targets that ignore the offset k
     for start in range(0, len(cases), batch_size):
         batch = cases[start:start + batch_size]
         per_lang = {}  # type: Dict[str, List[Item]]
         for kind, value, k in batch:
             nt = is_nontrivial_text(value) if kind != "b" else len(value) > 0
-            if kind == "s":
+            again = (kind, value) in first_seen
+            first_seen.add((kind, value))
+            if again:
+                pass  # the same text with another offset: only the interpolating targets see it again
+            elif kind == "s":
                 ctx.classes.update(text_classes(value))
             elif kind == "c":
                 ctx.classes["wchar:" + char_class(value)] += 1
             else:
                 ctx.classes[f"bytes:len={'0' if len(value) == 0 else '1-8' if len(value) <= 8 else '9-20'}"] += 1
-            items, reports = make_items(kind, value, k, langs=list(readers))
+            items, reports = make_items(kind, value, k, langs=list(readers), parts_only=again)
+            jvalue = list(value) if kind == "b" else value
             for name, what, msg in reports:
-                case = {"target": name, "value": list(value) if kind == "b" else value, "k": k}
+                kk = k if "parts" in name else None
                 if what.startswith("FAIL:"):
-                    ctx.case(nt, key=case, classes=[name + " | VIOLATION"])
-                    ctx.fail(what[5:], case, msg)
+                    ctx.classes[name + " | VIOLATION"] += 1
+                    ctx.fail(what[5:], {"target": name, "value": jvalue, "k": kk}, msg)
                 elif what == "not-applicable":
                     ctx.classes[name + " | not-applicable (needs_escaping)"] += 1
                 else:
-                    ctx.case(nt, key=case, classes=[name + " | error-reported:" + msg])
+                    ctx.classes[name + " | error-reported:" + msg] += 1
+            # one evaluated case = one value read by one language (all helpers and modes of that language)
+            by_lang = {}  # type: Dict[str, Dict[str, str]]
             for it in items:
+                by_lang.setdefault(lang_of(it.target), {})[it.target] = it.literal
                 per_lang.setdefault(lang_of(it.target), []).append(it)
+            for name, what, msg in reports:
+                if what != "not-applicable":
+                    by_lang.setdefault(lang_of(name), {}).setdefault(name, "<" + what + ">")
+            for lang, lits in by_lang.items():
+                key = [lang, kind, jvalue, k if again or any("parts" in t for t in lits) else None]
+                ctx.case(nt, key=key, sample={"language": lang, "value": jvalue, "k": key[3], "literals": lits})
         for lang in LANGS:
             its = per_lang.get(lang, [])
             if not its:
                 continue
-            outcomes = readers[lang](its, scratch)
-            for it, oc in zip(its, outcomes):
-                verdict = judge(it, oc)
-                nt = is_nontrivial_text(it.value) if it.kind != "b" else len(it.value) > 0
-                case = it.case()
+            for it, verdict in zip(its, judge_all(its, readers[lang], scratch)):
                 if verdict is None:
-                    ctx.case(nt, key=case, sample={"case": case, "literal": it.literal},
-                             classes=[it.target + " | denotes-original"])
+                    ctx.classes[it.target + " | denotes-original"] += 1
                 else:
-                    ctx.case(nt, key=case, classes=[it.target + " | VIOLATION"])
-                    ctx.fail(verdict[0], case, verdict[1])
+                    ctx.classes[it.target + " | VIOLATION"] += 1
+                    ctx.fail(verdict[0], it.case(), verdict[1])
     for k, v in STATS.items():
         ctx.notes["runs:" + k] = ctx.notes.get("runs:" + k, 0) + v
     ctx.notes["generated_cases"] = len(cases)
@@ -1117,8 +1205,7 @@ def replay(case: Any) -> List[Tuple[str, str]]:
     if items:
         scratch = pathlib.Path(os.environ.get("TMPDIR") or ".") / "c19-replay"
         scratch.mkdir(parents=True, exist_ok=True)
-        for it, oc in zip(items, ev(items, scratch)):
-            v = judge(it, oc)
+        for v in judge_all(items, ev, scratch):
             if v is not None:
                 out.append(v)
     return out
@@ -1146,8 +1233,9 @@ def health(m: Any, tier: str) -> Any:
     for need in ["char:nul", "char:c0-other", "char:del", "char:nel-U+0085", "char:linesep-U+2028/9", "char:astral",
                  "char:bom-U+FEFF", "char:nonchar-U+FFFE/F", "char:U+00FF/0100", "char:backtick",
                  "char:dollar-brace", "char:question", "seq:escaped-char+hexdigit", "seq:${"]:
-        if cls.get(need, 0) < 20:
-            return f"class {need} has only {cls.get(need, 0)} cases"
+        floor = max(3, int(0.003 * m["notes"].get("generated_cases", 0)))
+        if cls.get(need, 0) < floor:
+            return f"class {need} has only {cls.get(need, 0)} cases (< {floor})"
     return None
 
 
